@@ -84,19 +84,22 @@ type groupTranspileFn func(dir string, cases []*progCase)
 // process of every batch gets the tree's pkg_all.foi and its output is compared byte for byte.
 func fcsrvTranspiler(c *Ctx, pool *FcPool, withFoi bool) transpileFn {
 	foi := []byte(tablePackageInfo())
+	fullFoi, err := os.ReadFile(c.PkgAllFoi())
+	if err != nil {
+		panic(err)
+	}
 	if os.Getenv("VH_FULL_FOI") != "" {
-		var err error
-		foi, err = os.ReadFile(c.PkgAllFoi())
-		if err != nil {
-			panic(err)
-		}
+		foi = fullFoi
 	}
 	return func(pc *progCase) (string, string) {
 		s := pool.Get()
 		defer pool.Put(s)
 		name := fmt.Sprintf("p%d.fo", pc.Idx)
 		var r srvResp
-		if withFoi {
+		if withFoi && pc.P.RawFo != "" {
+			// hand-written text (repo samples, raw hazard programs) may use any library function
+			r = s.Transpile(SrcFile{"pkg_all.foi", string(fullFoi)}, SrcFile{name, pc.Src})
+		} else if withFoi {
 			r = s.Transpile(SrcFile{"pkg_all.foi", string(foi)}, SrcFile{name, pc.Src})
 		} else {
 			r = s.Transpile(SrcFile{name, pc.Src})
